@@ -18,8 +18,8 @@ def run(tier):
     thorough = tier == "thorough"
     rng = random.Random(vlib.seed())
     hz = vlib.go_build()
-    lens = (16, 17, 39, 40, 41, 100, 500, 1279, 1280, 1281) + ((2000, 4096) if thorough else (4096,))
-    dials = (0, 3, 8, 15, 30, 60, 120, 250, 1000, 1001, 1002, 1003)
+    lens = (16, 17, 39, 40, 41, 63, 100, 255, 500, 641, 1279, 1280, 1281) + ((2000, 4095, 4096) if thorough else (4096,))
+    dials = tuple(range(0, 64)) + (80, 120, 1000, 1001, 1002, 1003)
     seeds = tuple(rng.randrange(1, 40000) for _ in range(3 if thorough else 1))
     def tl(xs):
         return "<<" + ", ".join(map(str, xs)) + ">>"
